@@ -276,12 +276,33 @@ struct peak_fn
     }
 };
 
+// kinds 4..6: peak_fn 0 / 1 / 0 with windows in which the integrand is +inf or NaN; 4 and 5 fill a distribution as well
+// (the accumulator for integrands with distributions is a different specialisation), 6 does not
+template <typename T>
+struct nonfinite_fn
+{
+    int kind;
+    T value(T y) const
+    {
+        if (y > T(0.3L) && y < T(0.36L)) return std::numeric_limits<T>::infinity();
+        if (y > T(0.8L) && y < T(0.83L)) return std::numeric_limits<T>::quiet_NaN();
+        return kind == 5 ? y * y * y * y * T(5) : (y < T(0.25) ? T(8) : T(0.125));
+    }
+    T operator()(hep::multi_channel_point<T> const& p) const { return value(p.coordinates()[0]); }
+    T operator()(hep::multi_channel_point<T> const& p, hep::projector<T>& proj) const
+    {
+        T const v = value(p.coordinates()[0]);
+        proj.add(0, p.coordinates()[0], v);
+        return v;
+    }
+};
+
 template <typename T>
 static void real_runs(report& r, bool thorough)
 {
     std::string const tn = vf::type_name<T>();
     std::vector<std::vector<T>> const inits = {{}, {T(1), T(2), T(3)}, {T(0), T(1), T(1)}, {T(1), T(0), T(0.1L)}};
-    for (int kind = 0; kind != 4; ++kind)
+    for (int kind = 0; kind != 7; ++kind)
     for (sz in = 0; in != inits.size(); ++in)
     for (T beta : {T(0.25), T(1)})
     for (T minw : {T(0), T(0.05L)})
@@ -295,7 +316,7 @@ static void real_runs(report& r, bool thorough)
         vf::script_engine::salt() = 77 + kind;
         vf::pl_map<T> map;
         map.split = {T(0.25), T(0.5), T(0.75)};
-        auto integrand = hep::make_multi_channel_integrand<T>(peak_fn<T>{kind}, 1, map, 1, 3);
+        auto body = [&](auto integrand) {
         auto chk = inits[in].empty() ? hep::make_multi_channel_chkpt<T, vf::script_engine>(minw, beta)
             : hep::make_multi_channel_chkpt<T, vf::script_engine>(inits[in], minw, beta);
         using chk_t = decltype(chk);
@@ -320,6 +341,10 @@ static void real_runs(report& r, bool thorough)
                     if (inits[in][i] == T() && nxt[i] != T())
                         r.violate("disabled-channel-re-enabled", id, how + " -> " + show(nxt));
         }
+        };
+        if (kind < 4) body(hep::make_multi_channel_integrand<T>(peak_fn<T>{kind}, 1, map, 1, 3));
+        else if (kind < 6) body(hep::make_multi_channel_integrand<T>(nonfinite_fn<T>{kind}, 1, map, 1, 3, hep::make_dist_params<T>(4, T(0), T(1), "y")));
+        else body(hep::make_multi_channel_integrand<T>(nonfinite_fn<T>{kind}, 1, map, 1, 3));
         r.distinct(vf::hash_str(id));
     }
     vf::script_engine::salt() = 0;
